@@ -40,8 +40,19 @@ impl Manager {
         EcallTerminationPass::run(&mut cfg)?;
         FunctionMarkupPass::run(&mut cfg)?;
 
-        AvailableValuePass::run(&mut cfg)?;
-        EcallTerminationPass::run(&mut cfg)?;
+        // Exit ecalls are recognised from the values, and cutting the edges
+        // behind an exit changes the values (another ecall may only then turn
+        // out to be an exit): repeat until no edge is cut any more, so that
+        // the values that are kept belong to the edges that are kept.
+        loop {
+            AvailableValuePass::run(&mut cfg)?;
+            let edges = |cfg: &Cfg| cfg.iter().map(|node| node.nexts().len()).sum::<usize>();
+            let before = edges(&cfg);
+            EcallTerminationPass::run(&mut cfg)?;
+            if edges(&cfg) == before {
+                break;
+            }
+        }
         // EliminateDeadCodeDirectionsPass::run(&mut cfg)?; // to eliminate ecall terminated code
         LivenessPass::run(&mut cfg)?;
         Ok(cfg)
